@@ -58,6 +58,10 @@ class _NeedFork(Exception):
     """internal: a shape difference under a symbolic condition; the enclosing `if` forks"""
 
 
+class _Dead(Exception):
+    """internal: the current branch is infeasible under the path assumptions (dead code)"""
+
+
 class _Poison:
     def __repr__(self):
         return "<possibly-unbound>"
@@ -249,19 +253,43 @@ def shallow(t, depth, memo=None):
     return memo[k]
 
 
+_CONST_CACHE = {}
+
+
+def _small(t, limit):
+    """True if the DAG of t has at most `limit` nodes (bounded traversal)"""
+    seen = set()
+    todo = [t]
+    while todo:
+        x = todo.pop()
+        i = x.get_id()
+        if i in seen:
+            continue
+        seen.add(i)
+        if len(seen) > limit:
+            return False
+        todo.extend(x.children())
+    return True
+
+
 def const_of(c, depth=7):
-    """True / False if the z3 Bool `c` is decided by a bounded-depth simplification, else None.
+    """True / False if the z3 Bool `c` is decided by a bounded simplification, else None.
+    Small terms are simplified as they are; of larger ones only the top `depth` levels are kept
     (z3.simplify on the full, deeply nested term costs time quadratic in the unrolling depth:
-    measured 186 s for crc64 on 9 bytes.)"""
+    measured 186 s for crc64 on 9 bytes).  Results are cached per hash-consed term."""
+    key = (c.get_id(), depth)
+    hit = _CONST_CACHE.get(key)
+    if hit is not None and hit[0].eq(c):
+        return hit[1]
     try:
-        r = z3.simplify(shallow(c, depth))
+        r = z3.simplify(c if _small(c, 48) else shallow(c, depth))
     except z3.Z3Exception:
-        return None
-    if z3.is_true(r):
-        return True
-    if z3.is_false(r):
-        return False
-    return None
+        r = None
+    out = True if (r is not None and z3.is_true(r)) else (False if (r is not None and z3.is_false(r)) else None)
+    if len(_CONST_CACHE) > 200000:
+        _CONST_CACHE.clear()
+    _CONST_CACHE[key] = (c, out)
+    return out
 
 
 # --------------------------------------------------------------------------- parsing (per process)
@@ -314,6 +342,7 @@ class Interp:
         self.notes = []       # modelling notes (e.g. TypeError handler not reachable)
         self.cur = True       # current path condition (incl. "not yet returned")
         self.nstores = 0
+        self.memo = {}
         self.solver_checks = 0
         self.solver_time = 0.0
         self.depth = 0
@@ -507,6 +536,15 @@ class Interp:
         self.solver_time += time.time() - t
         return r
 
+    def dead_check(self):
+        """raise _Dead if the current (conditional) branch cannot be reached under the decisions so far"""
+        if self.solver is not None and is_sym(self.cur) and self._check(self.cur) == "unsat":
+            raise _Dead()
+
+    def need_fork(self, why):
+        self.dead_check()
+        raise _NeedFork(why)
+
     def decide(self, c):
         """fork point: returns a concrete bool for condition c; each alternative is checked
         for feasibility under the decisions taken so far before it is scheduled"""
@@ -515,6 +553,8 @@ class Interp:
         k = const_of(c)
         if k is not None:
             return k
+        if self.cur is not True:
+            self.dead_check()
         if self.pos < len(self.script):
             v = self.script[self.pos][0]
         else:
@@ -540,10 +580,41 @@ class Interp:
 
     # ---- calls
 
+    @staticmethod
+    def _memo_key(v):
+        """hashable key of an immutable argument value, or None if the value is (or holds) a mutable model"""
+        if is_sym(v):
+            return ("z", v.get_id())
+        if isinstance(v, tuple):
+            ks = tuple(Interp._memo_key(x) for x in v)
+            return None if any(k is None for k in ks) else ("t", ks)
+        if v is None or isinstance(v, (bool, int, float, str, Fraction)):
+            return (type(v).__name__, v)
+        return None
+
     def call(self, fn, args=(), kwargs=None):
-        """inline-translate python function `fn` on (possibly symbolic) arguments"""
+        """inline-translate python function `fn` on (possibly symbolic) arguments.  Calls whose
+        arguments are immutable values and which add no side condition / definition / decision /
+        store are memoised within this interpreter (pure sub-terms such as tween2(p, u, v) recur in
+        every predicate of a polygon)."""
         if isinstance(fn, BoundMethod):
             return self.call(fn.fn, [fn.obj] + list(args), kwargs)
+        key = None
+        if self.memo is not None:
+            ks = [self._memo_key(a) for a in args] + [(k, self._memo_key(v)) for k, v in sorted((kwargs or {}).items())]
+            if not any(k is None or (isinstance(k, tuple) and len(k) == 2 and k[1] is None) for k in ks):
+                key = (fn, tuple(ks))
+                hit = self.memo.get(key)
+                if hit is not None:
+                    return hit[0]
+        mark = (len(self.side), len(self.defs), self.nstores, self.pos, len(self.assume))
+        res = self._call(fn, args, kwargs)
+        if key is not None and mark == (len(self.side), len(self.defs), self.nstores, self.pos, len(self.assume)) \
+                and self._memo_key(res) is not None:
+            self.memo[key] = (res, list(args), kwargs)      # args kept alive: z3 ids stay valid
+        return res
+
+    def _call(self, fn, args=(), kwargs=None):
         fdef = fn_ast(fn)
         kwargs = dict(kwargs or {})
         a = fdef.args
@@ -696,11 +767,28 @@ class Interp:
     def stmt_if_sym(self, s, c, st, pc):
         env = st["env"]
         snap = (st["ret"], st["retc"], self.nstores, len(self.side), len(self.defs))
+
+        def restore(e):
+            if self.nstores != snap[2]:
+                raise Unsupported("branch abandoned after an attribute store (%s)" % (e,))
+            st["ret"], st["retc"] = snap[0], snap[1]
+            del self.side[snap[3]:]
+
         try:
-            sa = dict(st, env=dict(env))
-            self.block(s.body, sa, self.land(pc, c))
-            sb = dict(st, env=dict(env), ret=sa["ret"], retc=sa["retc"])
-            self.block(s.orelse, sb, self.land(pc, z3.Not(c)))
+            try:
+                sa = dict(st, env=dict(env))
+                self.block(s.body, sa, self.land(pc, c))
+            except _Dead:               # the body is dead code on this path: the statement is its else part
+                restore("dead branch")
+                self.block(s.orelse, st, pc)
+                return
+            try:
+                sb = dict(st, env=dict(env), ret=sa["ret"], retc=sa["retc"])
+                self.block(s.orelse, sb, self.land(pc, z3.Not(c)))
+            except _Dead:
+                restore("dead branch")
+                self.block(s.body, st, pc)
+                return
             merged = {}
             for name in list(sa["env"].keys()) + [k for k in sb["env"] if k not in sa["env"]]:
                 va, vb = sa["env"].get(name, POISON), sb["env"].get(name, POISON)
@@ -711,10 +799,7 @@ class Interp:
         except _NeedFork as e:
             if pc is not True or snap[1] is not False or st["base"] is not True:
                 raise
-            if self.nstores != snap[2]:
-                raise Unsupported("shape fork after an attribute store (%s)" % e)
-            st["ret"], st["retc"] = snap[0], snap[1]
-            del self.side[snap[3]:]
+            restore(e)
             self.cur = True
             v = self.decide(c)
             self.block(s.body if v else s.orelse, st, pc)
@@ -769,7 +854,7 @@ class Interp:
             if not isinstance(obj, list):
                 raise Unsupported("subscript store on %s" % type(obj).__name__)
             if self.cur is not True:
-                raise _NeedFork("list store under a symbolic condition")
+                self.need_fork("list store under a symbolic condition")
             if isinstance(t.slice, ast.Slice):
                 sl = self.eval_slice(t.slice, env, st["g"])
                 if is_sym(v) or not isinstance(v, (list, tuple, bytes, bytearray)):
@@ -854,6 +939,11 @@ class Interp:
                 raise PyRaise(e)
         if isinstance(a, (list, tuple)) or isinstance(b, (list, tuple)):
             raise Unsupported("sequence operator with a symbolic operand")
+        if t in (ast.LShift, ast.RShift) and not is_sym(b) and isinstance(b, int) and b < 0:
+            if self.cur is True:
+                raise PyRaise(ValueError("negative shift count"))
+            self.side.append(("negative shift count (ValueError)", z3.Not(self.cur)))
+            b = 0
         a, b = self.coerce2(a, b)
         if z3.is_bool(a):
             a, b = self.bool_to_num(a), self.bool_to_num(b)
@@ -1104,13 +1194,27 @@ class Interp:
             if not is_sym(c):
                 return self.eval(e.body if c else e.orelse, env, g)
             saved = self.cur
+            dead = [False, False]
+            a = b = None
             try:
                 self.cur = self.land(saved, c)
-                a = self.eval(e.body, env, g)
+                try:
+                    a = self.eval(e.body, env, g)
+                except _Dead:
+                    dead[0] = True
                 self.cur = self.land(saved, z3.Not(c))
-                b = self.eval(e.orelse, env, g)
+                try:
+                    b = self.eval(e.orelse, env, g)
+                except _Dead:
+                    dead[1] = True
             finally:
                 self.cur = saved
+            if dead[0] and dead[1]:
+                raise _Dead()
+            if dead[0]:
+                return b
+            if dead[1]:
+                return a
             return self.ite(c, a, b)
         if isinstance(e, ast.Subscript):
             v = self.eval(e.value, env, g)
@@ -1131,21 +1235,7 @@ class Interp:
             except (IndexError, KeyError, TypeError) as ex:
                 raise PyRaise(ex)
         if isinstance(e, ast.Attribute):
-            v = self.eval(e.value, env, g)
-            if isinstance(v, SymObj):
-                return v.get(e.attr)
-            if isinstance(v, SuperProxy):
-                mro = type.mro(v.obj.cls) if v.obj.cls is not None else []
-                for k in mro[mro.index(v.cls) + 1:]:
-                    if e.attr in k.__dict__ and inspect.isfunction(k.__dict__[e.attr]):
-                        return BoundMethod(k.__dict__[e.attr], v.obj)
-                raise Unsupported("super().%s" % e.attr)
-            if is_sym(v) or isinstance(v, (list, SymStr)):
-                raise Unsupported("attribute %s of a modelled value" % e.attr)
-            try:
-                return getattr(v, e.attr)
-            except AttributeError as ex:
-                raise PyRaise(ex)
+            return self.attr_of(self.eval(e.value, env, g), e.attr)
         if isinstance(e, ast.Call):
             return self.eval_call(e, env, g)
         if isinstance(e, (ast.GeneratorExp, ast.ListComp)):
@@ -1153,6 +1243,24 @@ class Interp:
         if isinstance(e, ast.JoinedStr):
             raise Unsupported("f-string")
         raise Unsupported("expression " + type(e).__name__)
+
+    def attr_of(self, v, name):
+        if isinstance(v, SymObj):
+            return v.get(name)
+        if isinstance(v, SuperProxy):
+            mro = type.mro(v.obj.cls) if v.obj.cls is not None else []
+            if v.cls not in mro:
+                raise Unsupported("super() of an unrelated class")
+            for k in mro[mro.index(v.cls) + 1:]:
+                if name in k.__dict__ and inspect.isfunction(k.__dict__[name]):
+                    return BoundMethod(k.__dict__[name], v.obj)
+            raise Unsupported("super().%s" % name)
+        if is_sym(v) or isinstance(v, (list, SymStr)):
+            raise Unsupported("attribute %s of a modelled value" % name)
+        try:
+            return getattr(v, name)
+        except AttributeError as ex:
+            raise PyRaise(ex)
 
     def comprehension(self, e, k, env, g):
         gen = e.generators[k]
@@ -1189,7 +1297,7 @@ class Interp:
                 m = e.func.attr
                 if m in ("insert", "append", "reverse", "extend", "pop", "clear"):
                     if self.cur is not True:
-                        raise _NeedFork("list mutation under a symbolic condition")
+                        self.need_fork("list mutation under a symbolic condition")
                     if any(is_sym(x) for x in a[:1]) and m in ("insert", "pop"):
                         raise Unsupported("symbolic list position")
                     if m == "extend":
@@ -1207,7 +1315,7 @@ class Interp:
                     return self.str_method(recv, e.func.attr, a, kw)
                 f = getattr(recv, e.func.attr)
             else:
-                f = self.eval(e.func, env, g)
+                f = self.attr_of(recv, e.func.attr)
         else:
             f = self.eval(e.func, env, g)
         args = []
@@ -1374,11 +1482,22 @@ class Interp:
 
     def str_method(self, recv, m, a, kw):
         if m == "format" and isinstance(recv, str):
-            if recv == "{0:02x}" and len(a) == 1 and not kw and is_sym(a[0]) and z3.is_bv(a[0]):
+            import re
+            mt = re.match(r"^\{0?:(0?)(\d*)x\}$", recv)
+            if mt and len(a) == 1 and not kw and is_sym(a[0]) and z3.is_bv(a[0]):
+                # hex formatting of a byte: 1 or 2 digits (shape fork on v < 16), padded to the width
                 v = a[0]
-                self.add_side("'{0:02x}'.format modelled for 0..255 only", z3.And(v >= 0, v <= 255))
-                return SymStr([self.digit_char(z3.LShR(z3.Extract(7, 0, v), 4), 16),
-                               self.digit_char(z3.Extract(7, 0, v) & 15, 16)])
+                self.add_side("'%s'.format modelled for 0..255 only" % recv, z3.And(v >= 0, v <= 255))
+                lo8 = z3.Extract(7, 0, v)
+                width = int(mt.group(2) or 0)
+                if width >= 2 and mt.group(1) == "0":
+                    digits = [self.digit_char(z3.LShR(lo8, 4), 16), self.digit_char(lo8 & 15, 16)]
+                elif self.decide(z3.ULT(lo8, 16)):
+                    digits = [self.digit_char(lo8 & 15, 16)]
+                else:
+                    digits = [self.digit_char(z3.LShR(lo8, 4), 16), self.digit_char(lo8 & 15, 16)]
+                pad = ["0" if mt.group(1) == "0" else " "] * max(0, width - len(digits))
+                return SymStr(pad + digits)
             raise Unsupported("str.format %r with symbolic arguments" % recv)
         if m == "join" and isinstance(recv, str):
             out = []
@@ -1557,38 +1676,16 @@ class Session:
             return "unknown"
         prem = list(assume) + list(defs)
         claim = claim if is_sym(claim) else z3.BoolVal(bool(claim))
-        # vacuity guards
-        guard_ok = False
-        if wrong is not None:
-            wrong = wrong if is_sym(wrong) else z3.BoolVal(bool(wrong))
-            r, m, why = self.check(*(prem + [z3.Not(wrong)]))
-            if r == "sat":
-                self.res["extra"]["guards_wrong_oracle_sat"] += 1
-                self.res["extra"]["guards_premise_sat"] += 1
-                guard_ok = True
-                if len(self.res["samples"]) < 2 and vals is not None:
-                    try:
-                        self.res["samples"].append(jsonable(vals(m)))
-                    except Exception:
-                        pass
-            elif r == "unsat":
-                self.inconclusive("vacuity guard: the deliberately wrong oracle was not refuted for %s %s" % (key, what))
-                return "unknown"
-            else:
-                self.inconclusive("vacuity guard unknown (%s) for %s %s" % (why, key, what))
-                return "unknown"
-        if not guard_ok:
-            r, m, why = self.check(*prem)
-            if r != "sat":
-                self.inconclusive("vacuity guard: premises %s for %s %s" % (r, key, what))
-                return "unknown"
-            self.res["extra"]["guards_premise_sat"] += 1
+
+        def sample(m):
             if len(self.res["samples"]) < 2 and vals is not None:
                 try:
                     self.res["samples"].append(jsonable(vals(m)))
                 except Exception:
                     pass
-        # side conditions of the translation
+
+        # 1. side conditions of the translation (a model found while they are violated would be an
+        #    artefact of the encoding, so they come first)
         side = [(l, c) for (l, c) in side]
         if side:
             self.res["extra"]["side_checks"] += 1
@@ -1603,11 +1700,8 @@ class Session:
                 self.inconclusive("translation side condition %s (%s) for %s %s" % (
                     "violated" if r == "sat" else "unknown", bad or why, key, what))
                 return "unknown"
-        # the query
+        # 2. the query
         r, m, why = self.check(*(prem + [z3.Not(claim)]))
-        if r == "unsat":
-            self.res["confirmed"] += 1
-            return "unsat"
         if r == "sat":
             if concretize is not None:
                 got = concretize(m)
@@ -1620,8 +1714,31 @@ class Session:
                 v = vals(m) if vals is not None else {}
                 self.fail(key, v, (detail(m, v) if callable(detail) else detail) or what)
             return "sat"
-        self.inconclusive("solver unknown (%s) for %s %s" % (why, key, what))
-        return "unknown"
+        if r != "unsat":
+            self.inconclusive("solver unknown (%s) for %s %s" % (why, key, what))
+            return "unknown"
+        # 3. vacuity guards: an `unsat` only counts if the premises are satisfiable and a
+        #    deliberately wrong oracle is refuted by the same premises
+        if wrong is not None:
+            wrong = wrong if is_sym(wrong) else z3.BoolVal(bool(wrong))
+            r, m, why = self.check(*(prem + [z3.Not(wrong)]))
+            if r == "sat":
+                self.res["extra"]["guards_wrong_oracle_sat"] += 1
+                self.res["extra"]["guards_premise_sat"] += 1
+                sample(m)
+                self.res["confirmed"] += 1
+                return "unsat"
+            self.inconclusive("vacuity guard: the deliberately wrong oracle was %s for %s %s"
+                              % ("not refuted" if r == "unsat" else "unknown (%s)" % why, key, what))
+            return "unknown"
+        r, m, why = self.check(*prem)
+        if r != "sat":
+            self.inconclusive("vacuity guard: premises %s for %s %s" % (r, key, what))
+            return "unknown"
+        self.res["extra"]["guards_premise_sat"] += 1
+        sample(m)
+        self.res["confirmed"] += 1
+        return "unsat"
 
     def prove_exhaustive(self, paths, what="", given=()):
         """the fork assumptions of the shape paths cover every input (of the domain `given`)"""
@@ -1694,6 +1811,9 @@ class Session:
                     continue
             if norm is not None:
                 exp = norm(exp)
+            if isinstance(got, tuple) and len(got) == 2 and got[0] == "side" and str(got[1]).startswith("bit-vector width"):
+                self.note("validation input outside the bit-vector width skipped: %s %r" % (label, case))
+                continue
             if not same_value(got, exp):
                 raise TranslationMismatch("%s: input %r: translated term gives %r, real function gives %r"
                                           % (label, case, got, exp))
@@ -1722,8 +1842,8 @@ def run_obligation(body, logic=None, timeout_ms=20000):
         except PyRaise as e:
             sess.inconclusive("translated code raises on a concrete path: %s" % e)
             sess.res["stopped"] = "raise"
-        except _NeedFork as e:
-            sess.inconclusive("Unsupported by the translator: shape difference outside a forkable branch: %s" % e)
+        except (_NeedFork, _Dead) as e:
+            sess.inconclusive("Unsupported by the translator: shape difference outside a forkable branch: %r" % e)
             sess.res["stopped"] = "unsupported"
         return sess.result()
     fn.__name__ = getattr(body, "__name__", "e2")
